@@ -437,8 +437,12 @@ def finish(prop, tier_, t0, coverage, violations, known_seen, *, assumptions=())
     coverage = dict(coverage)
     coverage["known_findings_seen"] = {fid: n for fid, (f, n) in known_seen.items()}
     write_evidence(prop, tier_, t0, coverage, violations=len(violations), assumptions=assumptions)
+    first = next((p for _d, p in violations if p), "")
     for desc, path in violations[:20]:
-        print("VIOLATION property=%s replay=%s  # %s" % (prop, path, desc))
+        if not path and not desc:
+            continue
+        # (a violation that got no replay file of its own - there is a cap per clause - points at the first one written)
+        print("VIOLATION property=%s replay=%s  # %s" % (prop, path or first, desc[:600]))
     if violations:
         print("%s: %d violation(s)" % (prop, len(violations)))
         return 1
